@@ -36,9 +36,85 @@ func TestVerifC02Soak(t *testing.T) {
 	out.Linef("model c02-soak 1")
 	n := vN(100)
 	for _, c := range vCases(n) {
-		vSoakCase(out, c)
+		if c < 2 {
+			vSoakLongCase(out, c) // corpus: long runs of the persistent queue with request identity checked
+		} else {
+			vSoakCase(out, c)
+		}
 		out.Flush()
 	}
+}
+
+// vSoakLongCase: >= 1300 requests through ONE real persistent queue, one consumer, requests sizer, tiny payloads that carry
+// their id (case 0: strictly one at a time; case 1: up to 8 queued/in flight). The item indexes run far beyond the short
+// random cases, so every stored request must come back under its own key: the monitor checks that only offered requests
+// are handed over, each exactly once, in order, and that every accepted one is.
+func vSoakLongCase(out *vOut, c int) {
+	const total = 1400
+	capacity := int64(1)
+	if c == 1 {
+		capacity = 8
+	}
+	out.Linef("case %d cap=%d block=1 wfr=0 persistent=1 consumers=1 producers=1 long=%d", c, capacity, total)
+	var logMu sync.Mutex
+	var log []string
+	ev := func(f string, a ...any) {
+		logMu.Lock()
+		log = append(log, fmt.Sprintf(f, a...))
+		logMu.Unlock()
+	}
+	pq := newPersistentQueue[uint64](persistentQueueSettings[uint64]{
+		sizer: request.RequestsSizer[uint64]{}, capacity: capacity, blockOnOverflow: true, signal: pipeline.SignalTraces, storageID: component.ID{},
+		encoding: uint64Encoding{}, id: component.NewID(exportertest.NopType), telemetry: componenttest.NewNopTelemetrySettings(),
+	})
+	var finished atomic.Int64
+	q := newAsyncQueue(pq, 1, func(_ context.Context, v uint64, done Done) {
+		id := v / 1000
+		if id > 1<<40 {
+			id = 1 << 40 // something that is not a request at all: keep the event parsable
+		}
+		ev("hand %d", id)
+		ev("fin %d 0", id)
+		done.OnDone(nil)
+		finished.Add(1)
+	})
+	host := hosttest.NewHost(map[component.ID]component.Component{{}: storagetest.NewMockStorageExtension(nil)})
+	if err := q.Start(context.Background(), host); err != nil {
+		out.Linef("viol sig=C02/harness/soak-start %s", vHex(err.Error()))
+		out.Linef("end")
+		return
+	}
+	flush := func() {
+		for _, l := range log {
+			out.Linef("tr %s", l)
+		}
+	}
+	offered := 0
+	for ; offered < total; offered++ {
+		ctx, cancel := context.WithTimeout(context.Background(), 5*time.Second)
+		err := q.Offer(ctx, uint64(offered)*1000+1)
+		cancel()
+		ev("ret %d 1 %s", offered, vErrStr(err))
+		if err != nil {
+			break // the queue stopped moving: the monitor reports what was accepted and never handed over
+		}
+	}
+	deadline := time.Now().Add(5 * time.Second)
+	for finished.Load() < int64(offered) && time.Now().Before(deadline) {
+		time.Sleep(200 * time.Microsecond)
+	}
+	ev("final %d", q.Size())
+	shut := make(chan struct{})
+	go func() { _ = q.Shutdown(context.Background()); close(shut) }()
+	select {
+	case <-shut:
+	case <-time.After(10 * time.Second):
+		out.Linef("viol sig=C02/soak/hang long persistent run: Shutdown did not return (case %d)", c)
+	}
+	flush()
+	out.Linef("nt")
+	out.Linef("stat soak_long_offers %d", offered)
+	out.Linef("end")
 }
 
 func vSoakCase(out *vOut, c int) {
